@@ -118,6 +118,9 @@ def parseOp (ws : List String) : Option Op :=
   | ["rand", i, n] => do pure (.rand (← parseImpl i) (← n.toNat?))
   | ["with", s, d] => do pure (.withB (← s.toNat?) (← d.toNat?))
   | ["withf", s, d] => do pure (.withF (← s.toNat?) (← d.toNat?))
+  -- the innermost callback panics (caught by the harness): the deferred releases run all the same
+  | ["withp", s, d] => do pure (.withB (← s.toNat?) (← d.toNat?))
+  | ["withfp", s, d] => do pure (.withF (← s.toNat?) (← d.toNat?))
   | ["reader", s] => do pure (.newReader (← s.toNat?))
   | ["read", r, k] => do pure (.read (← r.toNat?) (← k.toNat?))
   | ["close", s] => do pure (.close (← s.toNat?))
